@@ -86,6 +86,18 @@ func Bool(name string) bool {
 	return false
 }
 
+// Deep reports whether the check runs in its thorough tier: harnesses widen their bounds then.
+// A replay reads the tier of the run that found the counterexample.
+func Deep() bool {
+	load()
+	if v, ok := rp.Inputs["deep"]; ok {
+		if f, isNum := v.(float64); isNum {
+			return f == 1
+		}
+	}
+	return false
+}
+
 // Choice returns an arbitrary value in [0, n); every value is a separate path.
 func Choice(name string, n int) int {
 	if v, ok := get(name); ok {
